@@ -172,7 +172,8 @@ def run_check(prop, tier, seed):
         seen = set()
         for (code, note) in others:
             if code not in seen:
-                vf.log('NOTE: demand %s (belongs to another property) failed at %s; not part of %s' % (code, note, prop))
+                kind = 'specification growth, no listed property' if code.startswith('X.') else 'belongs to another property'
+                vf.log('NOTE: demand %s (%s) failed at %s; not part of %s' % (code, kind, note, prop))
                 seen.add(code)
         percode = {}
         for (code, evs, note) in violations:
